@@ -41,7 +41,7 @@ type ObjSpec struct {
 
 // SrcRef is a CopyFrom / SetX source taken from another record.
 type SrcRef struct {
-	Kind   string // "alt": the independently mutated shadow record; "reader": a reader's record;
+	Kind string // "alt": the independently mutated shadow record; "reader": a reader's record;
 	// "near": a Clone() of the destination itself with the Extra calls applied (a source that
 	// differs from the destination in exactly what Extra changes)
 	Extra  []*Call
@@ -215,17 +215,17 @@ type Cfg struct {
 	MaxCalls            int  // budget of API calls per Mutate step (default 40)
 	DictHeavy           bool // prefer dictionary-encoded fields and many distinct pooled strings
 
-	// GenSafe avoids three further defects of the code generated by the CURRENT stefc templates
-	// (found by the h_gen vertical, recorded as known findings of C10, triggered by scripted cases):
+	// GenSafe avoids two defects of the code generated by the CURRENT stefc templates that are
+	// still open (found by the h_gen vertical, known findings of C10, triggered by scripted cases):
 	//   - CopyFrom over a node whose type contains, anywhere, a dictionary struct (a dict-struct
 	//     field of a reset() container holds the frozen shared empty value; SetX(unfrozen) clones
 	//     it without parent links: setter-clone-unlinked) or an optional field of composite type
 	//     (copy into an absent optional compares with the stale hidden value:
 	//     copyfrom-into-absent-optional);
-	//   - any call inside a key/value of a multimap that has grown in this history (the
-	//     reallocation moves the key/value structs; array elements, pointer-stored optional
-	//     struct fields and pointer-stored oneof alternatives below them keep parent links to
-	//     the old copies: multimap-realloc-stale-parent).
+	//   - Set<F>(unfrozen v) of a dictionary-struct field with nested containers anywhere but on
+	//     a plain struct path from the root (mutate.go mutDictField: setter-clone-unlinked).
+	// The third avoidance (nothing mutated inside keys/values of a multimap that has grown:
+	// multimap-realloc-stale-parent) is lifted: repaired in the repository by 3ddaede.
 	GenSafe bool
 
 	// Reader source for CopyFrom / SetX(readerRecord.X()).
@@ -252,7 +252,6 @@ type State struct {
 	// pointer there. Persistent across Writes.
 	frozenAt   map[string]bool
 	usedFrozen map[*ObjSpec]bool
-	grownMaps  []string // GenSafe: nav keys of multimaps that have grown (persistent)
 	// SetterDrops lists float Set calls after which the getter did not return the bits that
 	// were set (known defect negzero-setter); only possible with AllowNegZero.
 	SetterDrops []string
@@ -384,9 +383,6 @@ func (st *State) guard(node reflect.Value, c *Call, args []reflect.Value) bool {
 				return false
 			}
 			st.touch(key)
-			if cfg.GenSafe && newLen > cur && c.Ty != nil && c.Ty.Kind == KMultimap {
-				st.grownMaps = append(st.grownMaps, key)
-			}
 		}
 	case 'T':
 		cur := int(call(node, "Type")[0].Uint())
@@ -479,20 +475,6 @@ func (st *State) guard(node reflect.Value, c *Call, args []reflect.Value) bool {
 		st.locked = append(st.locked, key)
 	}
 	return true
-}
-
-// belowMovedElement: the node is, or lies below, a key/value of a multimap that has grown. The
-// reallocation moves the by-value key/value structs; the generated fixParent re-parents inline
-// struct and multimap children only - not array elements, not optional struct fields stored
-// by pointer, not oneof alternatives stored by pointer - so changes below those mark a dead
-// copy. Conservatively nothing inside such a key/value is mutated in place any more.
-func (st *State) belowMovedElement(key string) bool {
-	for _, k := range st.grownMaps {
-		if strings.HasPrefix(key, k+"/Value#") || strings.HasPrefix(key, k+"/Key#") {
-			return true
-		}
-	}
-	return false
 }
 
 // TypeHas reports whether pred holds for a type reachable from t (through fields, oneof
